@@ -234,6 +234,9 @@ func c18codecCase(c *runner.Ctx, i int) {
 		if pan != nil || err != nil || !bytes.Equal(dec, orig) {
 			c.Violation("C18:"+name+":roundtrip", fmt.Sprintf("%s Decode(Encode(body)) of a %d-byte body: panic=%v err=%v, %d bytes back", name, n, pan, err, len(dec)), wit(nil))
 		}
+		if c.WantSample() {
+			c.Sample(map[string]interface{}{"compressor": name, "body_kind": kind, "body_len": n, "encoded_len": len(enc), "encoded_head": clipHex(enc[:minInt(len(enc), 24)])})
+		}
 		// a second encode must not disturb the first result
 		other := c18body(r, r.Intn(2000), r.Intn(7))
 		c18safeEncode(comp, other)
@@ -822,4 +825,7 @@ func c18wireCase(c *runner.Ctx, i int) {
 		c.Add("not_recovered_after_hostile_reply", 1)
 	}
 	check("after hostile reply")
+	if c.WantSample() {
+		c.Sample(map[string]interface{}{"case": key, "requests_flagged_compressed": fl, "requests_plain": pl, "hostile_reply": hostileKind, "hostile_reply_error": fmt.Sprint(herr)})
+	}
 }
